@@ -54,7 +54,7 @@ man = {
         {"name": "E-Str symstr", "path": "vlib/symstr.py", "serves_properties": ["C11"], "kind_free_text": "strings of concrete length with z3 integer characters; comparisons fork through E-F"},
         {"name": "E-N symnet", "path": "vlib/symnet.py", "serves_properties": ["C02", "C20"], "kind_free_text": "symbolic netlists: operands/outputs/label arguments as z3 choices decided on look-up, lazy users index (assumed invariant)"},
         {"name": "E-C cnf bridges", "path": "checks/c05.py, checks/c06.py", "serves_properties": ["C05", "C06", "C13"], "kind_free_text": "clause lists of the real encoders as z3 formulas under the real variable names"},
-        {"name": "E-L compositional", "path": "checks/c08_comp.py, checks/c08_lin.py", "serves_properties": ["C08"], "kind_free_text": "recorded generator calls; per-block bit-vector lemmas + integer conservation / algebra lemmas"},
+        {"name": "E-L compositional", "path": "checks/c08_comp.py, checks/c08_lin.py", "serves_properties": ["C07", "C08"], "kind_free_text": "recorded generator calls; per-block bit-vector lemmas + integer conservation / algebra lemmas"},
         {"name": "E-X crosshair", "path": "xh/", "serves_properties": ["C12", "C16"], "kind_free_text": "CrossHair contracts around real str/bytes code"},
     ],
     "checks": checks,
